@@ -5,6 +5,7 @@ import shutil
 import subprocess
 
 from engine import rule
+from mir import canon
 import engine
 
 EXPECTED_FAIL = 40
@@ -106,6 +107,84 @@ def t5(ctx):
     mine = witness_rule(ctx, ('t5_',), 'pinning / borrow')
     if mine is not None and len(mine) < 10:
         ctx.violate('kanal_witness', None, 'anchor missing: only %d of 10 T5 witnesses ran' % len(mine), sig='floor')
+
+
+HEAP = ('Box', 'Arc', 'Rc', 'Weak', 'NonNull', 'Vec', 'VecDeque', 'PhantomData')
+
+
+def holds_by_value(ty, name):
+    """does the type expression `ty` contain `name` IN PLACE (not behind a pointer, a reference or a heap container)?"""
+    ty = ty.replace(' ', '')
+    i = 0
+    while True:
+        i = ty.find(name, i)
+        if i < 0:
+            return False
+        j = i + len(name)
+        before_ok = i == 0 or not (ty[i - 1].isalnum() or ty[i - 1] == '_')
+        after_ok = j >= len(ty) or not (ty[j].isalnum() or ty[j] == '_')
+        if before_ok and after_ok:
+            # enclosing generic containers and leading pointer sigils
+            stack = []
+            k = 0
+            cur = ''
+            ptr = False
+            while k < i:
+                c = ty[k]
+                if c == '<':
+                    stack.append(cur)
+                    cur = ''
+                elif c == '>':
+                    if stack:
+                        stack.pop()
+                    cur = ''
+                elif c in ',()[];':
+                    cur = ''
+                else:
+                    cur += c
+                k += 1
+            lead = cur  # what stands directly before the name in its own slot: `&'amut`, `*mut`, `*const`, a path prefix
+            if lead.startswith('&') or lead.startswith('*mut') or lead.startswith('*const'):
+                ptr = True
+            if not ptr and not any(x.split('::')[-1] in HEAP for x in stack):
+                return True
+        i = j
+
+
+@rule('T6', ['C07', 'C15'], 'address stability: a type that holds a pinned (address-registered) future in place has no explicit Unpin impl', needs_async=True)
+def t6(ctx):
+    adts = ctx.facts.adts
+    pinned = set()
+    # least fixed point: ADTs that contain PhantomPinned in place, directly or through other ADTs of the crate
+    changed = True
+    while changed:
+        changed = False
+        for n, a in adts.items():
+            if n in pinned:
+                continue
+            short = canon(n).split('<')[0]
+            for v in a.get('variants', []):
+                for f in v.get('fields', []):
+                    t = canon(f['ty'])
+                    if holds_by_value(t, 'std::marker::PhantomPinned') or holds_by_value(t, 'PhantomPinned') \
+                            or any(holds_by_value(t, canon(q).split('<')[0]) for q in pinned):
+                        pinned.add(n)
+                        changed = True
+                        break
+                if n in pinned:
+                    break
+    for n in sorted(pinned):
+        ctx.instance('adt %s is address-sensitive' % n)
+        ctx.oblige(1, sample='%s: no explicit Unpin' % n)
+        short = canon(n).split('<')[0]
+        for im in ctx.facts.impls:
+            if im.get('of_trait') and canon(im.get('trait', '')) == 'std::marker::Unpin' and im.get('polarity', 'Positive') == 'Positive' \
+                    and canon(im.get('self_ty', '')).split('<')[0] == short:
+                ctx.violate(n, None, 'explicit `impl Unpin for %s`, which holds a future in place whose address is registered in the wait list: '
+                            'safe code could move it while a peer still writes to the old address' % im.get('self_ty'), at=im.get('span'), sig='unpin-impl')
+    for nm in ('future::SendFuture', 'future::ReceiveFuture'):
+        if nm not in pinned and nm in adts:
+            ctx.violate(nm, None, '%s is not address-sensitive any more (no PhantomPinned in place)' % nm, sig='unpinned')
 
 
 AUTO_TRAITS = ('std::marker::Send', 'std::marker::Sync', 'std::marker::Unpin', 'std::panic::UnwindSafe', 'std::panic::RefUnwindSafe')
